@@ -67,7 +67,15 @@ func respellings(q string) []string {
 	return out
 }
 
-var c20Paths = []string{"lexical", "nlp", "fuzzy", "fuzzy-30", "nlp+fuzzy", "cached", "suggestions"}
+var c20Paths = []string{"lexical", "nlp", "fuzzy", "fuzzy-30", "nlp+fuzzy", "cached", "suggestions", "lexical-cap4", "nlp-cap5"}
+
+// the two term-cap paths matter only where the cap can bite: queries of four words or more
+func c20PathApplies(path, q string) bool {
+	if strings.Contains(path, "-cap") {
+		return len(strings.Fields(q)) >= 4
+	}
+	return true
+}
 
 func c20Opts(path string, n int) Opts {
 	o := Opts{Limit: n + 3}
@@ -78,6 +86,10 @@ func c20Opts(path string, n int) Opts {
 		o.UseFuzzy = true
 	case "fuzzy-30":
 		o.UseFuzzy, o.FuzzyThreshold = true, -30
+	case "lexical-cap4":
+		o.TopTermsCap = 4
+	case "nlp-cap5":
+		o.UseNLP, o.TopTermsCap = true, 5
 	case "nlp+fuzzy", "cached":
 		o.UseNLP, o.UseFuzzy, o.FuzzyThreshold = true, true, -30
 	}
@@ -143,7 +155,10 @@ func c20Queries() []string {
 		add(q)
 	}
 	for _, q := range []string{"comprss", "gt sttus", "fils", "qz", "instal pakage", "show folder contents", "find files without opening", "manage ip windows",
-		"école café", "show file without opening", "see contents without editing", "look inside folder", "read text", "readme without opening", "overview file without editing", "список", "файл", "λίστα", "mkdir", "recrd chngs", "lst", "c", "zip out", "apt", "caf", "échó"} {
+		"école café", "show file without opening", "see contents without editing", "look inside folder", "read text", "readme without opening", "overview file without editing", "список", "файл", "λίστα", "mkdir", "recrd chngs", "lst", "c", "zip out", "apt", "caf", "échó",
+		// stop words: dropped by the tokenizer whatever their case, so they never use up the term budget
+		"how to find the largest files in a directory", "how do i list all the files in my folder", "what is the command to compress a folder with tar",
+		"the a an to of in", "how to git"} {
 		add(q)
 	}
 	return out
@@ -195,6 +210,9 @@ func c20Run(c *lib.Ctx) {
 		for _, q := range qs {
 			sps := respellings(q)
 			for _, path := range c20Paths {
+				if !c20PathApplies(path, q) {
+					continue
+				}
 				for _, sp := range sps[1:] {
 					cs := c20Case{DB: spec, Base: strconv.Quote(q), Spell: strconv.Quote(sp), Path: path}
 					v, obs := c20Eval(env, cs)
@@ -230,8 +248,11 @@ func c20Run(c *lib.Ctx) {
 			func(q string) string { return "\t" + q + "\n" },
 			func(q string) string { return strings.ReplaceAll(q, " ", "   ") },
 			func(q string) string { return strings.ReplaceAll(q, " ", " \t ") },
-			func(q string) string { return " " + strings.ReplaceAll(q, " ", " ") + "　" },
+			// Unicode blanks (NBSP, EM SPACE, IDEOGRAPHIC SPACE) at the ends and inside repeated white space
+			func(q string) string { return "\u00a0 " + strings.ReplaceAll(q, " ", " \u2003 ") + "\u3000" },
+			func(q string) string { return strings.ReplaceAll(q, " ", "\u00a0 ") + " \u2003" },
 		}
+		var envs []*c20Env
 		for _, q := range qs {
 			want, err := validation.ValidateQuery(q)
 			if err != nil {
@@ -241,11 +262,39 @@ func c20Run(c *lib.Ctx) {
 				got, err2 := validation.ValidateQuery(pad(q))
 				c.Rep.Evaluations++
 				c.Count("padding_cases", 1)
-				if err2 != nil || strings.Join(strings.Fields(got), " ") != strings.Join(strings.Fields(want), " ") {
-					c.Violate(lib.Violation{Key: "padding", What: fmt.Sprintf("padding %d of %q is validated to %q (err %v), the plain query to %q", pi, q, got, err2, want),
+				if err2 != nil {
+					c.Violate(lib.Violation{Key: "padding", What: fmt.Sprintf("padding %d of %q is rejected (%v), the plain query accepted", pi, q, err2),
 						Case: c20Case{Base: strconv.Quote(q), Padded: strconv.Quote(pad(q)), Path: "validate"}})
+					continue
 				}
-				// the engine tokenizes on white space itself: padded and plain must agree there too
+				if got == want {
+					continue
+				}
+				// the validated forms differ: then the engine must still give both the same answer on every path
+				c.Count("padding_cases_validated_differently", 1)
+				if envs == nil {
+					for _, sp := range []dbSpec{{Special: "forty"}, {Special: "nlpextra"}} {
+						db := c20Build(c, sp)
+						envs = append(envs, &c20Env{db: db, cdb: database.NewCachedDatabase(db)})
+					}
+				}
+				for ei, e := range envs {
+					for _, path := range c20Paths {
+						if path == "cached" {
+							e.cdb.InvalidateCache()
+						}
+						a := e.answer(path, want)
+						if path == "cached" {
+							e.cdb.InvalidateCache()
+						}
+						b := e.answer(path, got)
+						c.Rep.Evaluations += 2
+						if a != b {
+							c.Violate(lib.Violation{Key: "padding:" + path, What: fmt.Sprintf("padding %d of %q is validated to %q, the plain query to %q, and the %s path answers them differently (database %d)", pi, q, got, want, path, ei),
+								Case: c20Case{Base: strconv.Quote(q), Padded: strconv.Quote(pad(q)), Path: "validate"}, Observed: b, Expected: a})
+						}
+					}
+				}
 			}
 		}
 	}
@@ -254,7 +303,7 @@ func c20Run(c *lib.Ctx) {
 func init() {
 	lib.Register(&lib.Check{
 		ID: "C20", Level: "model_checking",
-		Rule:      "every query (all 1- and 2-word sequences over the lower-cased 22-word alphabet + 26 typo / NLP / non-ASCII queries) x every case re-spelling (all 2^n patterns when the query has n<=6 cased letters, else lower/UPPER/Title/alternating/last-letter) x paths {lexical, NLP, fuzzy thr 0, fuzzy thr -30, NLP+fuzzy, cached (q then Q, served from q's entry, also compared with a fresh search of Q), suggestions} x databases (all subsets of <=2 of 10 pool entries incl. upper-case and non-ASCII text, the 40-entry database, a Cyrillic/Greek/Latin-1 database, a database with the NLP expansion vocabulary): answers must be bit-identical to the lower-case spelling's; 6 white-space paddings of every query through ValidateQuery. Letters re-cased only between ToLower/ToUpper forms that are mutually inverse and fold-equivalent. evaluations = searches; non-trivial = pairs with a non-empty answer",
+		Rule:      "every query (all 1- and 2-word sequences over the lower-cased 22-word alphabet + 26 typo / NLP / non-ASCII queries + 5 stop-word-laden queries of up to 11 words) x every case re-spelling (all 2^n patterns when the query has n<=6 cased letters, else lower/UPPER/Title/alternating/last-letter) x paths {lexical, NLP, fuzzy thr 0, fuzzy thr -30, NLP+fuzzy, cached (q then Q, served from q's entry, also compared with a fresh search of Q), suggestions; for queries of >=4 words also lexical with TopTermsCap 4 and NLP with TopTermsCap 5} x databases (all subsets of <=2 of 10 pool entries incl. upper-case and non-ASCII text, the 40-entry database, a Cyrillic/Greek/Latin-1 database, a database with the NLP expansion vocabulary): answers must be bit-identical to the lower-case spelling's; 8 white-space paddings of every query (ASCII and Unicode blanks, leading / trailing / repeated) through ValidateQuery: the validated form is the plain query's, or else every path must answer both forms alike. Letters re-cased only between ToLower/ToUpper forms that are mutually inverse and fold-equivalent. evaluations = searches; non-trivial = pairs with a non-empty answer",
 		Assume:    []string{"map order pinned, host pinned", "CLI-level padding and case pairs are checked at process level in C17"},
 		QuickSecs: 150, ThorSecs: 900,
 		Run: c20Run,
